@@ -122,9 +122,11 @@ def _attr_tree(text: str):
     dec = reader.decode(text)
     if dec.error or not dec.shape.editable:
         return None
-    layers = tuple(tuple(sorted((k, v) for k, v in reader.flatten(l)[0].items())) for l in dec.layers)
-    target = tuple(sorted((k, v) for k, v in reader.flatten(dec.target)[0].items()))
-    return (layers, target)
+    def one(members):
+        tree, dups = reader.flatten(members)
+        return (tuple(sorted((k, v) for k, v in tree.items())), tuple(sorted(dups)))  # a doubly defined attribute is a different tree
+
+    return (tuple(one(l) for l in dec.layers), one(dec.target))
 
 
 def execute(case: dict):
@@ -176,8 +178,10 @@ def execute(case: dict):
                 f2["tail_newline_only"] = b.rstrip("\n") == doc.rstrip("\n")
                 viols.append(Violation("C19.L2_not_reversible", "set %s then rm does not restore the text (%s): %r vs original %r" % (p, mode, b[-200:], doc[-200:]), None, f2))
         elif law == "L3":
-            pred = DocModel(reader.decode(doc)).apply(ops[0])
-            if pred[0] != "ok" or pred[1] == "drop_layer":
+            dm3 = DocModel(reader.decode(doc))
+            pred = dm3.apply(ops[0])
+            # dm3.layers is the state after the rm: other layers remain -> `@name` would address one of them
+            if pred[0] != "ok" or (pred[1] == "drop_layer" and len(dm3.layers) >= 1):
                 # removing the last binding prunes the layer; a later `@name` then
                 # addresses another layer by design, so the law does not apply
                 stats["skip:rm_prunes_layer"] = stats.get("skip:rm_prunes_layer", 0) + 1
